@@ -22,7 +22,8 @@ CONSTANTS MaxPeer,          \* bound on peer events
           MaxCalls,         \* bound on local calls
           PeerKinds,        \* subset of the nine peer event kinds
           CallApis,         \* subset of the local calls
-          BUG_SecondClose   \* TRUE: handleFrame as before the repair
+          BUG_SecondClose,  \* TRUE: handleFrame as before the repair
+          Focus             \* properties whose monitor rules are enforced (see WsSessionMon)
 
 VARIABLES st,     \* the Stream: [state, pend]
           inq,    \* transport read side: items not yet read [k, t, c]
